@@ -330,6 +330,10 @@ T == octet.
 	#error "One of the base types is not supported"
 #endif
 
+#if defined(BEE2_VERIF) && defined(BEE2_VERIF_W32)
+	#undef U128_SUPPORT
+#endif
+
 /*!
 *******************************************************************************
 \def B_PER_W
